@@ -334,4 +334,8 @@ def main(argv):
 
 
 if __name__ == "__main__":
-    sys.exit(main(sys.argv))
+    _rc = main(sys.argv)
+    sys.stdout.flush()
+    sys.stderr.flush()
+    # a violation of C10/C11 can leave a non-daemon thread blocked for ever: never let that hang the checker
+    os._exit(_rc if isinstance(_rc, int) else 0)
